@@ -156,6 +156,15 @@ def run_definitions(desc):
     flows = fd.make_empty_flows(processes=processes, flow_definitions=definition.flows, dims=ds, naming=fn) if nk != "arrow" or desc.get("explicit_naming") else fd.make_empty_flows(processes=processes, flow_definitions=definition.flows, dims=ds)
     stocks = fd.make_empty_stocks(stock_definitions=definition.stocks, processes=processes, dims=ds)
     check_system_parts(desc, processes, flows, stocks, nk, "helpers")
+    # 1b. the SAME definition objects built again with another naming function: names follow the naming of that build,
+    # and building never edits the definitions
+    for fdef, f in zip(definition.flows, desc["flows"]):
+        require(fdef.name_override == f.get("override"), "definition-changed-by-building", f"name_override now {fdef.name_override!r}, defined {f.get('override')!r}")
+    other = "ids" if nk != "ids" else "custom"
+    fn2, _ = naming_fn(other)
+    flows2 = fd.make_empty_flows(processes=processes, flow_definitions=definition.flows, dims=ds, naming=fn2)
+    exp2 = expected_flow_names(desc, other)
+    require(sorted(flows2) == sorted(exp2), "flow-names-of-second-build", f"second build with naming '{other}' after '{nk}': {sorted(flows2)} expected {sorted(exp2)}")
     # 2. the whole pipeline through a data reader (default naming)
     if desc["naming"] == "arrow":
         pv = prm_values(desc)
